@@ -357,8 +357,11 @@ class Grammar:
             for prod in prods:
                 weights[prod] = weights[prod] / total_weights
 
-        for weight in weights:
-            assert weights[weight] >= 0 and weights[weight] <= 1
+        # only productions are normalised: a class that belongs to no rule (the starting symbol, a concrete class used as
+        # a field type) keeps the weight it declares, whatever its size
+        for prods in self.alternatives.values():
+            for prod in prods:
+                assert weights[prod] >= 0 and weights[prod] <= 1
 
         starting_symbol = self.starting_symbol
         nodes = list(self.considered_subtypes)
